@@ -5,9 +5,8 @@
     /repo, obtained behaviourally in this run.  The symbolic theorems hold for every table and all
     constants; the finite facts they need about the tables are decided here by computation. *)
 From Coq Require Import Reals List Bool Arith Lra Lia.
-From Interval Require Import Tactic.
 From CB Require Import Base.Hex Base.Vec3 Model.C14_Quality.
-From CB Require Import Proofs.C14_IEval Proofs.C14_Algebra Proofs.C14_Rigid Proofs.C14_Scale Proofs.C14_Renumber Proofs.C14_Stretch.
+From CB Require Import Proofs.C14_Algebra Proofs.C14_Rigid Proofs.C14_Scale Proofs.C14_Renumber Proofs.C14_Stretch.
 From CB Require Import Gen.C14.Tables.
 Import ListNotations.
 
@@ -141,11 +140,11 @@ Proof.
 Qed.
 
 Lemma K_eps : (eps_a K <= 1 / 2 /\ 0 <= eps_l K <= 1)%R.
-Proof. cbv [K rk zk eps_a eps_l rd z_ea z_el fst snd dy]. repeat split; interval. Qed.
+Proof. cbv [K rk zk eps_a eps_l rd z_ea z_el fst snd dy powerRZ]. simpl pow. repeat split; lra. Qed.
 Lemma K_w_as : exists b e f, w_as K = (b, e, f) /\ (1 <= b /\ 0 <= e /\ 0 <= f)%R.
 Proof.
   cbv [K rk zk w_as rw rd z_as fst snd]. eexists _, _, _. split; [reflexivity|].
-  cbv [dy]. repeat split; interval.
+  cbv [dy powerRZ]. simpl pow. repeat split; lra.
 Qed.
 
 Theorem C14_stretch : C14_stretch_stmt.
